@@ -2,8 +2,8 @@
     message of the first one, whatever the reporter. *)
 From Coq Require Import Lia.
 From HP Require Import Base.Bytes Base.Utf8 Base.Num Model.Scanner Model.Parser Model.Elements Model.Resolver
-  Model.Dates Model.Tree Model.Writer Model.Reporters Model.Cli.
-From HP Require Import Proofs.MalformedBase.
+  Model.Dates Model.Tree Model.Writer Model.Regex Model.Reporters Model.Cli.
+From HP Require Import Proofs.MalformedBase Proofs.RegexPlain.
 Open Scope N_scope.
 
 Section Log.
@@ -340,10 +340,13 @@ Section Log.
     destruct (single_row NM d (rc_single_element c) ln) as [[[p n]|]|]; reflexivity.
   Qed.
   Lemma total_byfood : forall c d, process_total (rep_byfood NM c d). Proof. intros c d. total. Qed.
-  Lemma total_single_food : forall c, plain_pattern (rc_single_food c) = true -> process_total (rep_single_food NM c).
+  (** [reg -f PATTERN]: the pattern compiles ([pattern_ok]: [parse_regex] answers [ReOk]) *)
+  Lemma total_single_food : forall c, pattern_ok (rc_single_food c) = true -> process_total (rep_single_food NM c).
   Proof.
-    intros c Hp pi s ln. cbn [r_process rep_single_food]. rewrite Hp.
-    destruct (ln_elems NM ln); reflexivity.
+    intros c Hp pi s ln. cbn [r_process rep_single_food].
+    destruct (ln_elems NM ln); [reflexivity|].
+    destruct (plain_pattern (rc_single_food c) && valid_utf8_no_fffd (rc_single_food c)); [reflexivity|].
+    unfold pattern_ok in Hp. destruct (parse_regex (rc_single_food c)); [reflexivity|discriminate Hp|discriminate Hp].
   Qed.
   Lemma total_balance : forall c, process_total (rep_balance NM c). Proof. intros c. total. Qed.
   Lemma total_balance_single : forall c d, process_total (rep_balance_single NM c d). Proof. intros c d. total. Qed.
@@ -353,7 +356,7 @@ Section Log.
   Lemma total_csv_log : process_total (rep_csv_log NM). Proof. total. Qed.
   Lemma total_print : forall c, process_total (rep_print NM c). Proof. intros c. total. Qed.
 
-  Lemma total_reg : forall c d, plain_pattern (rc_single_food c) = true -> process_total (reg_reporter NM c d).
+  Lemma total_reg : forall c d, pattern_ok (rc_single_food c) = true -> process_total (reg_reporter NM c d).
   Proof.
     intros c d Hp. unfold reg_reporter.
     destruct (rc_single_element c).
@@ -369,14 +372,32 @@ Section Log.
     destruct (rc_single_element c); [apply total_balance|apply total_balance_single].
   Qed.
 
-  (** the pattern of [reg -f] must be plain text: otherwise Process itself fails on the first
-      non-empty selected day (the model does not interpret regular expressions) *)
-  Lemma single_food_not_total : forall c, plain_pattern (rc_single_food c) = false ->
+  (** the pattern of [reg -f] must compile: otherwise Process itself fails on the first
+      non-empty selected day (with Go's regexp error for an invalid pattern; a pattern the
+      model declines is outside the model) *)
+  Lemma single_food_not_total : forall c, pattern_ok (rc_single_food c) = false ->
     ~ process_total (rep_single_food NM c).
   Proof.
     intros c Hp H.
     specialize (H (fun l => l) tt {| ln_time := zero_time; ln_elems := [([], zero NM)]; ln_meta := None |}).
-    cbn in H. rewrite Hp in H. discriminate.
+    cbn [r_process rep_single_food ln_elems] in H. unfold pattern_ok in Hp.
+    destruct (plain_pattern (rc_single_food c) && valid_utf8_no_fffd (rc_single_food c)) eqn:G.
+    - apply andb_true_iff in G. destruct G as [G1 G2].
+      rewrite (plain_parse_literal _ G1 G2) in Hp. discriminate Hp.
+    - destruct (parse_regex (rc_single_food c)); [discriminate Hp|discriminate H|discriminate H].
+  Qed.
+
+  (** ... and with an invalid pattern the error is the regexp error *)
+  Lemma single_food_invalid_pattern : forall c pi s ln,
+    parse_regex (rc_single_food c) = ReError -> ln_elems NM ln <> [] ->
+    r_process NM (rep_single_food NM c) pi s ln = (tt, [], Some ERegexp).
+  Proof.
+    intros c pi s ln Hp Hne. cbn [r_process rep_single_food].
+    destruct (ln_elems NM ln) as [|e es]; [congruence|].
+    destruct (plain_pattern (rc_single_food c) && valid_utf8_no_fffd (rc_single_food c)) eqn:G.
+    - apply andb_true_iff in G. destruct G as [G1 G2].
+      rewrite (plain_parse_literal _ G1 G2) in Hp. discriminate Hp.
+    - rewrite Hp. reflexivity.
   Qed.
 
   Lemma nopanic_template : forall c d, never_panics (rep_template NM c d). Proof. intros c d rs. reflexivity. Qed.
